@@ -146,6 +146,16 @@ func computeGramNil(c *Ctx, g *Gram, ctors map[string]*CtorSummary) *gramNil {
 					if litNil {
 						continue
 					}
+					// a local of the action holding another constructor's result: that constructor's kinds
+					if idx < len(cl.Args) && cl.Args[idx].FromCtor != "" {
+						if cr2, has := res[cl.Args[idx].FromCtor]; has && len(cr2.retParams) == 0 {
+							for k := range cr2.kinds {
+								reach[k] = true
+							}
+							continue
+						}
+						known = false
+					}
 					for _, s := range syms {
 						s = strings.TrimPrefix(s, "$$")
 						if gn.kinds[s] == nil {
@@ -376,18 +386,61 @@ func c05ParsePipeline(c *Ctx) {
 		return
 	}
 	r.Fn(relName(pp))
-	// the `len(p.errs) != 0` test: its true arm stores the converted error; success returns are on its false arm
+	// the `len(p.errs) != 0` test: its true arm stores the converted error; success returns are on its false arm. It
+	// sits in ParsePipeline or in a same-package function ParsePipeline calls (two levels) whose results it returns.
 	var test *ssa.BasicBlock
-	for _, b := range pp.Blocks {
-		if iff, ok := b.Instrs[len(b.Instrs)-1].(*ssa.If); ok {
-			if s := condStr(iff.Cond); strings.Contains(s, "len(") && strings.Contains(s, ".errs") {
-				test = b
+	ppOuter := pp
+	cands := []*ssa.Function{pp}
+	for i := 0; i < len(cands) && i < 12; i++ {
+		allInstrs(cands[i], func(in ssa.Instruction) {
+			if call, ok := in.(*ssa.Call); ok {
+				if g := call.Call.StaticCallee(); g != nil && g.Pkg == pp.Pkg && len(g.Blocks) > 0 && g.Signature.Results().Len() == pp.Signature.Results().Len() {
+					dup := false
+					for _, c0 := range cands {
+						if c0 == g {
+							dup = true
+						}
+					}
+					if !dup {
+						cands = append(cands, g)
+					}
+				}
+			}
+		})
+	}
+	for _, g := range cands {
+		for _, b := range g.Blocks {
+			if iff, ok := b.Instrs[len(b.Instrs)-1].(*ssa.If); ok && test == nil {
+				if s := condStr(iff.Cond); strings.Contains(s, "len(") && strings.Contains(s, ".errs") {
+					test = b
+					pp = g
+				}
 			}
 		}
 	}
-	if test == nil {
-		r.Ob("PARSE-RESULT", "ParsePipeline tests the recorded errors", t.Pos(pp.Pos()), false, "no test of len(p.errs)")
-		return
+	if pp != ppOuter {
+		// the outer function must hand on what the inner one decided
+		handsOn := false
+		allInstrs(ppOuter, func(in ssa.Instruction) {
+			if ret, ok := in.(*ssa.Return); ok && len(ret.Results) > 0 {
+				if ex, isE := ret.Results[0].(*ssa.Extract); isE {
+					if call, isC := ex.Tuple.(*ssa.Call); isC && call.Call.StaticCallee() == pp {
+						handsOn = true
+					}
+				}
+			}
+			if s, ok := in.(*ssa.Store); ok {
+				if ex, isE := s.Val.(*ssa.Extract); isE {
+					if call, isC := ex.Tuple.(*ssa.Call); isC && call.Call.StaticCallee() == pp {
+						handsOn = true
+					}
+				}
+			}
+		})
+		if !handsOn {
+			test = nil
+		}
+		r.Fn(relName(pp))
 	}
 	// which arm is "errors present": len(errs) != 0 / > 0 → true arm; len(errs) == 0 → false arm
 	errArm, okArm := test.Succs[0], test.Succs[1]
@@ -395,9 +448,17 @@ func c05ParsePipeline(c *Ctx) {
 		errArm, okArm = test.Succs[1], test.Succs[0]
 	}
 	conv := false
+	var convInline *ssa.Call
 	allInstrs(pp, func(in ssa.Instruction) {
-		if call, ok := in.(*ssa.Call); ok && call.Call.StaticCallee() != nil && call.Call.StaticCallee().Name() == "conv2PlError" && (errArm.Dominates(call.Block()) || errArm == call.Block()) {
-			conv = true
+		if call, ok := in.(*ssa.Call); ok && call.Call.StaticCallee() != nil && (errArm.Dominates(call.Block()) || errArm == call.Block()) {
+			switch call.Call.StaticCallee().Name() {
+			case "conv2PlError":
+				conv = true
+			case "NewErr": // the conversion written out: the first recorded error, positioned by the parse's own cache
+				if len(call.Call.Args) == 3 && strings.Contains(path(call.Call.Args[2]), "errs[0]") {
+					conv, convInline = true, call
+				}
+			}
 		}
 	})
 	r.Ob("PARSE-RESULT", "ParsePipeline converts the first recorded error", t.Pos(pp.Pos()), conv, "conv2PlError(name, p.errs, &p.posCache) on the errors-present arm")
@@ -413,7 +474,7 @@ func c05ParsePipeline(c *Ctx) {
 	r.Ob("PARSE-RESULT", "ParsePipeline hands out the tree only when no error was recorded", t.Pos(pp.Pos()), okRes, "p.parseResult is read only on the len(p.errs) == 0 arm")
 	// recover installed
 	rec := false
-	allInstrs(pp, func(in ssa.Instruction) {
+	allInstrs(ppOuter, func(in ssa.Instruction) {
 		if d, ok := in.(*ssa.Defer); ok && d.Call.StaticCallee() != nil && d.Call.StaticCallee().Name() == "recover" {
 			rec = true
 		}
@@ -430,6 +491,11 @@ func c05ParsePipeline(c *Ctx) {
 				}
 			}
 		})
+	}
+	if convInline != nil {
+		if lc, ok := convInline.Call.Args[1].(*ssa.Call); ok && lc.Call.StaticCallee() != nil && lc.Call.StaticCallee().Name() == "LnCol" && strings.Contains(path(lc.Call.Args[len(lc.Call.Args)-1]), "errs[0].Pos.Start") {
+			okPos = true
+		}
 	}
 	r.Ob("PARSE-RESULT", "conv2PlError positions the error at the first recorded error's start", "pkg/parser/parser.go", okPos, "posCache.LnCol(errs[0].Pos.Start)")
 }
@@ -696,48 +762,61 @@ func c05Lexer(c *Ctx) {
 	// parser.Lex: ERROR -> addParseErr + return 0
 	errV, _ := constInt(t.SSA[pParser].Const("ERROR").Value)
 	okErr, nErr := true, 0
+	// parser.Lex itself, or the function whose verdict it returns (the bookkeeping phase moved out of Lex)
+	lexFns := []*ssa.Function{lex}
 	allInstrs(lex, func(in ssa.Instruction) {
-		ret, ok := in.(*ssa.Return)
-		if !ok {
-			return
-		}
-		under := false
-		for _, ec := range controlling(ret.Block()) {
-			if bo, ok := ec.Cond.(*ssa.BinOp); ok && bo.Op == token.EQL && ec.Pol {
-				if v, ok := constInt(bo.Y); ok && v == errV {
-					under = true
+		if ret, ok := in.(*ssa.Return); ok && len(ret.Results) == 1 {
+			if call, isC := ret.Results[0].(*ssa.Call); isC {
+				if g := call.Call.StaticCallee(); g != nil && g.Pkg == lex.Pkg && len(g.Blocks) > 0 {
+					lexFns = append(lexFns, g)
 				}
 			}
 		}
-		if !under {
-			return
-		}
-		nErr++
-		added := false
-		allInstrs(lex, func(i2 ssa.Instruction) {
-			call, ok := i2.(*ssa.Call)
-			if !ok || call.Call.StaticCallee() == nil || !precedes(call, ret) {
+	})
+	for _, lex := range lexFns {
+		allInstrs(lex, func(in ssa.Instruction) {
+			ret, ok := in.(*ssa.Return)
+			if !ok {
 				return
 			}
-			h := call.Call.StaticCallee()
-			if h.Name() == "addParseErr" {
-				added = true
-				return
-			}
-			// a same-package helper that records the error on every path
-			if h.Pkg == lex.Pkg && len(h.Blocks) > 0 {
-				allInstrs(h, func(i3 ssa.Instruction) {
-					if c3, ok := i3.(*ssa.Call); ok && c3.Call.StaticCallee() != nil && c3.Call.StaticCallee().Name() == "addParseErr" && len(controlling(c3.Block())) == 0 {
-						added = true
+			under := false
+			for _, ec := range controlling(ret.Block()) {
+				if bo, ok := ec.Cond.(*ssa.BinOp); ok && bo.Op == token.EQL && ec.Pol {
+					if v, ok := constInt(bo.Y); ok && v == errV {
+						under = true
 					}
-				})
+				}
+			}
+			if !under {
+				return
+			}
+			nErr++
+			added := false
+			allInstrs(lex, func(i2 ssa.Instruction) {
+				call, ok := i2.(*ssa.Call)
+				if !ok || call.Call.StaticCallee() == nil || !precedes(call, ret) {
+					return
+				}
+				h := call.Call.StaticCallee()
+				if h.Name() == "addParseErr" {
+					added = true
+					return
+				}
+				// a same-package helper that records the error on every path
+				if h.Pkg == lex.Pkg && len(h.Blocks) > 0 {
+					allInstrs(h, func(i3 ssa.Instruction) {
+						if c3, ok := i3.(*ssa.Call); ok && c3.Call.StaticCallee() != nil && c3.Call.StaticCallee().Name() == "addParseErr" && len(controlling(c3.Block())) == 0 {
+							added = true
+						}
+					})
+				}
+			})
+			v, isC := constInt(ret.Results[0])
+			if !added || !isC || v != 0 {
+				okErr = false
 			}
 		})
-		v, isC := constInt(ret.Results[0])
-		if !added || !isC || v != 0 {
-			okErr = false
-		}
-	})
+	}
 	okErr = okErr && nErr > 0
 	r.Ob("LEX-CONTRACT", "parser.Lex records a lexer error and ends the token stream", t.Pos(lex.Pos()), okErr, "case ERROR: addParseErr(...); return 0")
 	// coverage: writers of Lexer.start
